@@ -1,5 +1,6 @@
 import PhysisModel.Proofs.PatchChain
 import PhysisModel.Proofs.PatchSpecFacts
+import PhysisModel.Proofs.PatchSparse
 /-!
 # C03 — applying a ZiPatch has exactly the reference effect on the install
 
@@ -207,5 +208,103 @@ example : InflateOK (fun _ _ => none) exCmds := by
   simp [exCmds] at hm
   obtain ⟨_, _, _, rfl⟩ := hm
   simp at hb; subst hb; trivial
+
+/-! ### sparse evaluation (`Spec/ZiPatchSparse.lean`): byte offsets of 2^32 and more
+
+The correspondence cases `applybig` take their expected answers from an evaluation of the reference
+semantics on run-length encoded file contents (a run of zeros costs nothing).  The theorems below say
+that this evaluation **is** the reference semantics of the theorems above, for all inputs: nothing
+about the huge cases rests on a second, unproved specification. -/
+
+open Physis.Spec.ZiPatchSparse in
+/-- **Sparse contents.**  `takeS` / `dropS` / `writeS` / `setLenS` on segment lists denote `take` / `drop` /
+`Fs.writeAt` (seek + write_all, the model's write) = `overlay` (the specification's index-wise write) /
+truncate-or-extend on the bytes, the written data being sparse itself. -/
+theorem c03_sparse_write (old : SFile) (off : Nat) (new : SFile) :
+    dense (writeS old off new) = Fs.writeAt (dense old) off (dense new) ∧
+    dense (writeS old off new) = overlay (dense old) off (dense new) ∧
+    dense (takeS off old) = (dense old).take off ∧
+    dense (dropS off old) = (dense old).drop off ∧
+    dense (setLenS old off) = (dense old).take off ++ zeros (off - (dense old).length) :=
+  ⟨dense_writeS old off new, dense_writeS_overlay old off new, dense_takeS off old, dense_dropS off old,
+    dense_setLenS old off⟩
+
+open Physis.Spec.ZiPatchSparse in
+/-- **Sparse length and FNV-1a.**  The arithmetic length and hash (a run of `n` zeros multiplies the
+FNV state by `prime ^ n`, computed by square-and-multiply in `UInt64`) are the length and the
+byte-wise FNV-1a 64 of the dense bytes, hence the canonical `h<len>.<fnv>` text is the same. -/
+theorem c03_sparse_fnv (f : SFile) :
+    len f = (dense f).length ∧ fnvS f = FsText.fnv1a (dense f) ∧
+    showContentS f = FsText.showContent (dense f) ∧
+    (∀ b n, powFast b n = powSlow b n) ∧
+    (∀ h n, (zeros n).foldl fnvStep h = h * powFast fnvPrime n) :=
+  ⟨(dense_length f).symm, fnvS_eq f, showContentS_eq f, powFast_eq,
+    fun h n => by rw [foldl_fnvStep_zeros, powFast_eq]⟩
+
+open Physis.Spec.ZiPatchSparse in
+/-- **Sparse run = reference run.**  For every command list and every state with sparse files, the
+reference semantics on the dense state is defined exactly when the sparse evaluation is, and its
+result is the denotation of the sparse result (one command: `effect`; a list: `run`). -/
+theorem c03_sparse_refines (s : SSt) (cs : List Cmd) :
+    run (denseSt s) cs = (runS s cs).map denseSt ∧
+    (∀ c, effect (denseSt s) c = (effectS s c).map denseSt) :=
+  ⟨run_denseSt s cs, effect_denseSt s⟩
+
+open Physis.Spec.ZiPatchSparse in
+/-- the same for chains of patches and for the well-formedness predicate of `c03_chain`; an ordinary
+start tree is the denotation of its lifting -/
+theorem c03_sparse_chain (pss : List (List Cmd)) (t : STree) :
+    runChain pss (denseTree t) = (runChainS pss t).map denseTree ∧
+    WFchain pss (denseTree t) = WFchainS pss t ∧
+    (∀ u : Tree, denseTree (liftTree u) = u) :=
+  ⟨runChain_denseTree pss t, WFchain_denseTree pss t, denseTree_liftTree⟩
+
+open Physis.Spec.ZiPatchSparse in
+/-- **Canonical text.**  The text the driver prints for a sparse tree is the canonical text of the
+dense tree (what the harness prints for the directory on disk). -/
+theorem c03_sparse_text (t : STree) (withDirs : Bool) :
+    showTreeS t withDirs = FsText.showTree (denseTree t) withDirs :=
+  showTreeS_eq t withDirs
+
+open Physis.Spec.ZiPatchSparse in
+/-- **The model on the huge cases.**  When the sparse evaluation accepts a chain (`WFchainS`), the
+model of `ZiPatch::apply` on the encoded patches, started on the dense tree, reports success and
+leaves exactly the denotation of the sparse result: the `applybig` cases need no separate model
+answer. -/
+theorem c03_sparse_model (inflate : Bytes → Nat → Option Bytes) (pss : List (List Cmd)) (t : STree)
+    (hwf : WFchainS pss t = true) (hinf : ∀ cs ∈ pss, InflateOK inflate cs) :
+    ∃ t', runChainS pss t = some t' ∧
+      applyAll inflate (pss.map encodePatch) (denseTree t) = (.ok, denseTree t') := by
+  rw [← WFchain_denseTree] at hwf
+  obtain ⟨u, h1, h2⟩ := c03_chain inflate pss (denseTree t) hwf hinf
+  rw [runChain_denseTree] at h1
+  cases hr : runChainS pss t with
+  | none => rw [hr] at h1; cases h1
+  | some t' =>
+    rw [hr] at h1
+    simp only [Option.map_some, Option.some.injEq] at h1
+    exact ⟨t', rfl, h1 ▸ h2⟩
+
+/-- TargetInfo(win32); a record at block 3 of `sqpack/ffxiv/040000.win32.dat0`; a second record at block
+0x02000003 (byte offset 4 GiB + 384) of the same file followed by 2^25 + 1 wiped blocks (4 GiB + 128
+zero bytes); ExpandData of two blocks at byte offset 2^32 − 128 of another file -/
+def exBig : List Cmd :=
+  [.target 0 0xFFFF 0 1 0 0,
+   .addData 4 0 0 3 0 (List.replicate 128 7),
+   .addData 4 0 0 0x02000003 0x02000001 (List.replicate 128 9),
+   .expandData 4 0 1 0x01FFFFFF 2]
+
+open Physis.Spec.ZiPatchSparse in
+example : WFchainS [exBig] [] = true := by decide +kernel
+example : InflateOK (fun _ _ => none) exBig := by
+  intro off exp path blocks hm b hb
+  simp [exBig] at hm
+
+open Physis.Spec.ZiPatchSparse in
+/-- the sparse result of `exBig`: lengths 2·2^32 + 640 and 2^32 + 128, evaluated by the kernel -/
+example :
+    ((runChainS [exBig] []).map fun t => t.filterMap fun e =>
+      match e.2 with | .file f => some (len f, fnvS f) | .dir => none) =
+    some [(4294967424, 0x1ab710bd9b6f9954), (8589935232, 0x6baef53e55484a25)] := by decide +kernel
 
 end Physis.C03
